@@ -333,6 +333,7 @@ def shard_worker(args):
     mod = get_check(prop)
     findings = load_findings()
     out = []
+    minimised_classes = set()
     for idx in indices:
         if deadline and time.time() > deadline:
             break
@@ -370,8 +371,12 @@ def shard_worker(args):
             rec["plan"] = plan
             rec["violations"] = r["violations"]
             new = {c for c in map(tuple, rec["classes"]) if not match_finding(findings, prop, c[0], c[1])}
-            if new and minimise_budget > 0:
-                small, n_exec = minimise(mod, plan, new, budget_s=minimise_budget)
+            # only the first plan of a violation class is minimised per shard: a change that breaks every plan must not make one
+            # worker process re-execute (and re-compile) hundreds of training runs (XLA's CPU compiler segfaulted after that)
+            fresh = new - minimised_classes
+            minimised_classes |= new
+            if fresh and minimise_budget > 0:
+                small, n_exec = minimise(mod, plan, fresh, budget_s=minimise_budget, max_exec=int(getattr(mod, "MINIMISE_MAX_EXEC", 300)))
                 try:
                     r2 = run_plan(mod, small)
                     rec["min_plan"] = small
